@@ -223,6 +223,10 @@ class BigEdge:
             raise Exception("Method for versor doesn't exist or cell missing")
 
         vector = np.array((- (vobject.y - yc), (vobject.x - xc)))
+        straight = np.array(self.get_straight_edge_versor_from_vid(vid), dtype=float)
+        if abs(np.dot(vector, straight)) <= 1e-6 * np.linalg.norm(vector) * np.linalg.norm(straight):
+            # degenerate fit of collinear points (centre on the interface's own line): use the straight direction
+            vector = straight
 
         correct_sign = self.get_versor_sign(vid)
         if np.any(np.sign(vector) != correct_sign):
